@@ -35,6 +35,9 @@ func TestMain(m *testing.M) {
 type Case struct {
 	Histories  []History `json:"histories"`
 	Registered []CSSRef  `json:"registered,omitempty"`
+	// LaterFrom: the registered classes from this index on are added to the middleware's exported
+	// Classes list after the middleware was made (0 = all of them at construction).
+	LaterFrom int `json:"later_from,omitempty"`
 	PreInit    bool      `json:"pre_init"` // contexts are created with templ.InitializeContext before rendering
 	// Nested: every Write that reaches the writer of context 0 (a slow client, a writer that
 	// renders something itself) first lets the next history of another context render. The
@@ -573,7 +576,18 @@ func decide(c Case) error {
 				}
 			}
 		})
-		mw := templ.NewCSSMiddleware(next, regClasses...)
+		initial := regClasses
+		if c.LaterFrom > 0 && c.LaterFrom < len(regClasses) {
+			initial = regClasses[:c.LaterFrom]
+		}
+		mw := templ.NewCSSMiddleware(next, initial...)
+		if len(initial) < len(regClasses) {
+			for _, cl := range regClasses[len(initial):] {
+				if cc, ok := cl.(templ.ComponentCSSClass); ok {
+					mw.CSSHandler.Classes = append(mw.CSSHandler.Classes, cc)
+				}
+			}
+		}
 		for _, id = range order {
 			st = states[id]
 			rerr = nil
@@ -784,6 +798,10 @@ func TestPropHistories(t *testing.T) {
 			}
 		}
 		rec.Eval(1)
+		if len(c.Registered) > 1 && rapid.IntRange(0, 2).Draw(t, "later") == 0 {
+			c.LaterFrom = rapid.IntRange(1, len(c.Registered)-1).Draw(t, "laterFrom")
+			rec.Class("classes added to the middleware after it was made")
+		}
 		if len(c.Registered) > 0 {
 			rec.Class("with-css-middleware")
 		}
